@@ -644,9 +644,9 @@ def dump_one(f: TextIO, data: IOData):
 
     # write basic information
     _dump_integer_scalars("Number of atoms", data.natom, f)
-    _dump_integer_scalars("Number of electrons", int(data.nelec), f)
+    _dump_integer_scalars("Number of electrons", int(np.round(data.nelec)), f)
     if data.charge is not None:
-        _dump_integer_scalars("Charge", int(data.charge), f)
+        _dump_integer_scalars("Charge", int(np.round(data.charge)), f)
     if data.mo is not None:
         na = int(np.round(np.sum(data.mo.occsa)))
         nb = int(np.round(np.sum(data.mo.occsb)))
